@@ -37,15 +37,22 @@ def programs(tier):
     out = []
     pool = SPECIES[:2]
     for order in range(0, 5 if tier == "thorough" else 4):
-        for r in itertools.combinations_with_replacement(pool, order):
-            for named in (True, False):
-                out.append(("massaction", dict(reactants=list(r), products=["C"], named=named)))
+        for r0 in itertools.combinations_with_replacement(pool, order):
+            # every way of writing the same reactant multiset (repeats need not be adjacent)
+            for r in sorted(set(itertools.permutations(r0))):
+                for named in (True, False):
+                    if tier == "quick" and order >= 3 and named and list(r) != sorted(r):
+                        continue
+                    out.append(("massaction", dict(reactants=list(r), products=["C"], named=named)))
     for pt in ("hillpositive", "hillnegative", "proportionalhillpositive", "proportionalhillnegative"):
         for named in ("roles", "n", False):
             for reactants in ([], ["A"]):
                 out.append((pt, dict(reactants=reactants, products=["C"], named=named, s1="A", d="B")))
     out.append(("general", dict(reactants=["A"], products=["C"], rate="kg*A*B/(1 + A)")))
     out.append(("general", dict(reactants=["A", "A"], products=[], rate="kg*A^2 + B")))
+    for rate in ("kg*exp(-A^2/4)", "30 - B^2 - -A", "-(A - kg)^2 + 40", "kg*log(A + 1) + exp(-B)", "2^-A + A^3",
+                 "abs(A - B) + A/(B + 1)/2 - A*B/(A + 1)"):
+        out.append(("general", dict(reactants=["A"], products=["C"], rate=rate)))
     return out
 
 
